@@ -61,12 +61,21 @@ pub fn collect_items<'tcx>(tcx: TyCtxt<'tcx>) -> J {
             }
             DefKind::Trait => {
                 j.put("vis", J::s(format!("{:?}", tcx.visibility(did))));
+                j.put("reachable", J::Bool(tcx.effective_visibilities(()).is_reachable(ldid)));
                 let mut sup = Vec::new();
                 for cs in tcx.explicit_super_predicates_of(did).iter_identity_copied() {
                     let (clause, _) = cs.skip_norm_wip();
                     if let Some(tp) = clause.as_trait_clause() {
                         let sd = tp.def_id();
                         sup.push(J::obj()
+                            .set("reachable", J::Bool(match sd.as_local() {
+                                Some(l) => tcx.effective_visibilities(()).is_reachable(l),
+                                None => true,
+                            }))
+                            .set("nameable", J::Bool(match sd.as_local() {
+                                Some(l) => tcx.effective_visibilities(()).is_exported(l),
+                                None => true,
+                            }))
                             .set("path", J::s(def_path(tcx, sd)))
                             .set("vis", J::s(format!("{:?}", tcx.visibility(sd))))
                             .set("local", J::Bool(sd.is_local())));
